@@ -12,8 +12,9 @@
 //!               serialized public key; first/last byte dropped, a byte appended / prepended.
 //!   P3 pairs  : every pair of changes of two different kinds (signature, id, data, name, parent, key)
 //!               where at least one member comes from the coarse alphabet (quick: both).
-//!   P4 shifts : every one-byte re-cut between adjacent hashed fields that keeps the concatenation
-//!               name‖parent‖data unchanged (both directions), plus the partial moves.
+//!   P4 shifts : every other way of cutting the concatenation name‖parent‖data of a signing into
+//!               (name', 32-byte parent', data') — all boundary positions, including an empty name or
+//!               empty data on either side — plus the one-byte partial moves.
 //! Oracle (statement): verification succeeds iff key, data, name, parent, signature and claimed id are
 //! all those of one signing, and then returns that signing's id.
 
@@ -187,8 +188,10 @@ fn build_space(args: &Args) -> Space {
     let seed = args.seed;
     let tier = args.tier;
     let nkeys = tier.pick(3, 4);
-    let mut datas: Vec<Vec<u8>> = vec![vec![], vec![0x41], (0..33u8).map(|i| i.wrapping_mul(7).wrapping_add(0x30)).collect()];
-    let mut names: Vec<String> = vec!["A".into(), "AddDevice".into()];
+    // data: empty, 1 B, exactly one id wide (32 B: a re-partition can turn it into the parent), 33 B
+    let mut datas: Vec<Vec<u8>> = vec![vec![], vec![0x41], (0..32u8).map(|i| b'a' + i % 26).collect(), (0..33u8).map(|i| i.wrapping_mul(7).wrapping_add(0x30)).collect()];
+    // names: empty (a legal `&str`; not a policy identifier, so aranya-crypto level only), 1 char, 9 chars
+    let mut names: Vec<String> = vec!["".into(), "A".into(), "AddDevice".into()];
     // parent ids: default; one whose first and last bytes are identifier characters (so re-cuts
     // stay valid names); one pseudo-random.
     let mut p1 = [0u8; 32];
@@ -199,7 +202,6 @@ fn build_space(args: &Args) -> Space {
     aranya_crypto::Csprng::fill_bytes(&rng(seed, 34, 0x100), &mut p2);
     let mut parents = vec![[0u8; 32], p1, p2];
     if tier == Tier::Thorough {
-        datas.push((0..32u8).collect());
         datas.push(vec![0u8; 64]);
         names.push("AddDevicf".into());
         let mut p3 = p1;
@@ -232,7 +234,12 @@ fn build_space(args: &Args) -> Space {
                     use core::borrow::Borrow as _;
                     let sig_bytes = sig.to_bytes().borrow().to_vec();
                     // policy-level sign
-                    let ident: Identifier = name.parse().unwrap_or_else(|_| mcx::machinery_error("base name not an identifier"));
+                    let Ok(ident) = name.parse::<Identifier>() else {
+                        // not a policy identifier (the empty name): the policy-level sign cannot be asked;
+                        // the policy-level verify is still tried with the sign_cmd signature
+                        signings.push(Signing { k, data: data.clone(), name: name.clone(), parent: *parent, label: format!("k{k}/d{d}/n{name}/p{p}"), sig: sig_bytes.clone(), id: *id.as_array(), ffi_sig: sig_bytes, ffi_id: *id.as_array() });
+                        continue;
+                    };
                     let ctx = CommandContext::Seal(SealContext { name: ident, head_id: pid });
                     let mut st = MachineStack::new();
                     let sk_id = sk.id().unwrap_or_else(|e| mcx::machinery_error(&format!("sk id: {e}")));
@@ -367,8 +374,15 @@ impl Space {
             let c = Change::Name("append_e".into(), format!("{}e", s.name));
             coarse.push(c.clone());
             fine.push(c);
-            fine.push(Change::Name("droplast".into(), s.name[..s.name.len() - 1].to_string()));
-            fine.push(Change::Name("lowercase".into(), s.name.to_lowercase()));
+            if !s.name.is_empty() {
+                fine.push(Change::Name("droplast".into(), s.name[..s.name.len() - 1].to_string()));
+            }
+            if !s.name.is_empty() {
+                fine.push(Change::Name("empty".into(), String::new()));
+            }
+            if s.name.to_lowercase() != s.name {
+                fine.push(Change::Name("lowercase".into(), s.name.to_lowercase()));
+            }
         }
         // parent
         for (p, alt) in self.parents.iter().enumerate() {
@@ -600,25 +614,22 @@ fn per_signing(sp: &Space, si: usize) -> Tally {
 
     // ---- P4: boundary shifts between adjacent hashed fields
     let mut shifts: Vec<(String, String, [u8; 32], Vec<u8>)> = vec![];
-    // whole-chain re-cuts that keep name‖parent‖data byte-identical
-    if !s.data.is_empty() && s.parent[0] < 0x80 {
-        let mut name = s.name.clone();
-        name.push(s.parent[0] as char);
-        let mut parent = [0u8; 32];
-        parent[..31].copy_from_slice(&s.parent[1..]);
-        parent[31] = s.data[0];
-        shifts.push(("recut:name<parent<data".into(), name, parent, s.data[1..].to_vec()));
-    }
+    // every other way of cutting the same concatenated bytes name‖parent‖data into
+    // (name', 32-byte parent', data'), including empty fields on either side
     {
-        let last = *s.name.as_bytes().last().unwrap();
-        if last < 0x80 {
-            let name = s.name[..s.name.len() - 1].to_string();
-            let mut parent = [0u8; 32];
-            parent[0] = last;
-            parent[1..].copy_from_slice(&s.parent[..31]);
-            let mut data = vec![s.parent[31]];
-            data.extend_from_slice(&s.data);
-            shifts.push(("recut:name>parent>data".into(), name, parent, data));
+        let mut cat = s.name.clone().into_bytes();
+        cat.extend_from_slice(&s.parent);
+        cat.extend_from_slice(&s.data);
+        for i in 0..=cat.len() - 32 {
+            if i == s.name.len() {
+                continue;
+            }
+            let Ok(name) = String::from_utf8(cat[..i].to_vec()) else {
+                t.count("repartitions_skipped_name_not_utf8", 1);
+                continue;
+            };
+            let parent: [u8; 32] = cat[i..i + 32].try_into().unwrap();
+            shifts.push((format!("recut:name={i}B,data={}B", cat.len() - 32 - i), name, parent, cat[i + 32..].to_vec()));
         }
     }
     // partial moves (one boundary only; the concatenation changes)
@@ -666,6 +677,9 @@ fn per_signing(sp: &Space, si: usize) -> Tally {
         t.count("boundary_shift_cases", 1);
         if lbl.starts_with("recut") {
             t.count("boundary_recut_cases", 1);
+            if name.is_empty() || data.is_empty() || s.name.is_empty() || s.data.is_empty() {
+                t.count("boundary_recut_cases_with_empty_field", 1);
+            }
         }
         judge(&mut t, &mut w, &what, Some(&cc), Some(&cf), None, false, true);
     }
@@ -698,7 +712,7 @@ pub fn run(args: &Args) {
     rep.set("parent_alphabet", sp.parents.len() as u64);
     rep.set(
         "rule",
-        "signings = keys × data × names × parents (sign_cmd and crypto::sign FFI); P1 every signature against every verification tuple of the alphabet (all single/multi-point replacements) × claimed ids; P2 every single-bit flip of signature / claimed id / parent / data / name / serialized public key, plus dropped/added bytes; P3 pairs of changes of different kinds (quick coarse×coarse, thorough fine×coarse); P4 one-byte re-cuts name|parent|data. distinct_nontrivial = distinct tampered cases whose inputs parsed so the signature check itself decided (set of case descriptions, both levels)",
+        "signings = keys × data × names × parents (sign_cmd and crypto::sign FFI); P1 every signature against every verification tuple of the alphabet (all single/multi-point replacements) × claimed ids; P2 every single-bit flip of signature / claimed id / parent / data / name / serialized public key, plus dropped/added bytes; P3 pairs of changes of different kinds (quick coarse×coarse, thorough fine×coarse); P4 every re-partition of the concatenation name‖parent‖data into (name', 32-byte parent', data') incl. empty name / empty data on either side, plus one-byte partial moves. distinct_nontrivial = distinct tampered cases whose inputs parsed so the signature check itself decided (set of case descriptions, both levels)",
     );
     rep.set("exhaustive", true);
     rep.assume("binding property only: decided over the enumerated tamper space with the listed deterministic keys; nothing is claimed about other keys or about unforgeability");
@@ -706,7 +720,7 @@ pub fn run(args: &Args) {
     rep.assume("the key-id|name boundary cannot be re-cut through the API (the author field is a fixed 32-byte id derived from the verifying key); only name|parent|data re-cuts preserve the concatenation");
     guards(
         &mut rep,
-        &["signings", "crypto_verifications", "ffi_verifications", "p1_cross_cases", "p2_single_changes", "p3_pair_changes", "boundary_recut_cases", "ffi_id_mismatch_cases"],
+        &["signings", "crypto_verifications", "ffi_verifications", "p1_cross_cases", "p2_single_changes", "p3_pair_changes", "boundary_recut_cases", "boundary_recut_cases_with_empty_field", "ffi_id_mismatch_cases"],
         &["accepted_untampered", "ffi_accepted_untampered", "rejected_by_auth", "ffi_rejected_after_parse"],
     );
     rep.finish()
